@@ -380,21 +380,21 @@ class _StubClient:
 
 
 def install_s3_stub(net):
+    """Replace S3File.__init__ (the only place that talks to boto3) by one that installs a stub object handle;
+    _parse_header, download_range and close of the real class stay in use."""
     import dclab.rtdc_dataset.fmt_s3 as fs3
     from dclab.http_utils import HTTPFile
-    real = fs3.S3File
-    if getattr(real, "_sim", False):
+    cls = fs3.S3File
+    if getattr(cls, "_sim", False):
         return
 
-    class SimS3File(real):
-        _sim = True
-
-        def __init__(self, object_path, endpoint_url, access_key_id="", secret_access_key="",
-                     use_ssl=True, verify_ssl=True):
-            if endpoint_url is None:
-                raise ValueError("The S3 endpoint URL is empty.")
-            endpoint_url = endpoint_url.strip().rstrip("/")
-            self.s3_client = _StubClient()
-            self.s3_object = StubS3Object(net, endpoint_url, object_path)
-            HTTPFile.__init__(self, f"{endpoint_url}/{object_path}")
-    fs3.S3File = SimS3File
+    def sim_init(self, object_path, endpoint_url, access_key_id="", secret_access_key="",
+                 use_ssl=True, verify_ssl=True):
+        if endpoint_url is None:
+            raise ValueError("The S3 endpoint URL is empty.")
+        endpoint_url = endpoint_url.strip().rstrip("/")
+        self.s3_client = _StubClient()
+        self.s3_object = StubS3Object(net, endpoint_url, object_path)
+        HTTPFile.__init__(self, f"{endpoint_url}/{object_path}")
+    cls.__init__ = sim_init
+    cls._sim = True
